@@ -1909,8 +1909,15 @@ pub fn run_history(case: &HistCase, opts: Opts) -> Vec<Ev> {
         match op {
             Op::Dispatch { timeout_ms } => {
                 ctx.pre_dispatch_probes();
-                sh.push(Ev::DispBegin { t_ns: sh.now_ns(), timeout_ms: *timeout_ms as u32 });
-                let to = Duration::from_millis(*timeout_ms as u64);
+                // a "long" dispatch really waits only when a synthetic event is expected to make the wait non-blocking
+                let eff_ms: u32 = if *timeout_ms >= super::ops::LONG_DISPATCH_MS {
+                    let synthetic_expected = ctx.srcs.iter().any(|s| s.inserted && matches!(s.kind, Kind::Probe { lifecycle: true, synthetic: Some(_), .. }));
+                    if synthetic_expected { *timeout_ms as u32 } else { 0 }
+                } else {
+                    *timeout_ms as u32
+                };
+                sh.push(Ev::DispBegin { t_ns: sh.now_ns(), timeout_ms: eff_ms });
+                let to = Duration::from_millis(eff_ms as u64);
                 let r = catch_unwind(AssertUnwindSafe(|| el.dispatch(Some(to), &mut ctx)));
                 let res = match r {
                     Ok(r) => res_of(&r),
